@@ -8,6 +8,7 @@ import (
 	"fmt"
 	"io"
 	"net"
+	"os"
 	"sort"
 	"sync"
 	"testing"
@@ -29,11 +30,16 @@ func TestMain(m *testing.M) { stats.Main(m) }
 // true content after `latency` of virtual time, unless the request has been
 // cancelled meanwhile (as a real seed does).  corrupt > 0: the first `corrupt`
 // blocks it serves are wrong.
+// seedRepeatsUnchoke: the scripted seeds answer every Interested with Unchoke
+// (set per case).
+var seedRepeatsUnchoke bool
+
 func seed(x *sim.Tor, r *sim.Remote, corrupt int, served *int, latency time.Duration) {
 	bad := corrupt
 	var mu sync.Mutex
 	type key struct{ i, b uint32 }
 	gen := map[key]int{} // generation of the latest request for a block; a cancel bumps it
+	unchoked := false
 	r.Auto(func(m ref.Msg) []ref.Msg {
 		switch m.Kind {
 		case ref.KRequest:
@@ -76,7 +82,16 @@ func seed(x *sim.Tor, r *sim.Remote, corrupt int, served *int, latency time.Dura
 			gen[key{m.Index, m.Begin}]++
 			mu.Unlock()
 		case ref.KInterest:
-			return []ref.Msg{{Kind: ref.KUnchoke}}
+			// an unchoking seed says so once; a seed that repeated it at every
+			// Interested would re-trigger storrent's scheduler each time, and
+			// hide a scheduler that has stopped asking
+			mu.Lock()
+			first := !unchoked
+			unchoked = true
+			mu.Unlock()
+			if first || seedRepeatsUnchoke {
+				return []ref.Msg{{Kind: ref.KUnchoke}}
+			}
 		}
 		return nil
 	})
@@ -108,21 +123,24 @@ func (s step) String() string {
 		return fmt.Sprintf("Read(%d)", s.N)
 	case "evict":
 		return fmt.Sprintf("evict(to %d)", s.Target)
+	case "sleep":
+		return fmt.Sprintf("sleep(%ds)", s.N)
 	}
 	return s.Kind
 }
 
 type caseSpec struct {
-	g        sim.Geometry
-	off, len int64
-	steps    []step
-	prefill  []int
-	idleRate uint32
-	lowMem   bool
-	corrupt  int
-	fast     bool
-	latency  time.Duration // of the honest seed
-	end      string // close | kill-blocked | cancel-blocked
+	g             sim.Geometry
+	off, len      int64
+	steps         []step
+	prefill       []int
+	idleRate      uint32
+	lowMem        bool
+	corrupt       int
+	fast          bool
+	latency       time.Duration // of the honest seed
+	repeatUnchoke bool          // the seed answers every Interested with Unchoke, not only the first
+	end           string        // close | kill-blocked | cancel-blocked
 }
 
 func genCase(rt *rapid.T) caseSpec {
@@ -169,15 +187,30 @@ func genCase(rt *rapid.T) caseSpec {
 			c.len = rapid.Int64Range(0, total-c.off).Draw(rt, "len")
 		}
 	}
-	for i := 0; i < n; i++ {
-		if rapid.IntRange(0, 2).Draw(rt, "prefill") == 0 {
+	switch rapid.IntRange(0, 5).Draw(rt, "prefillclass") {
+	case 0: // everything but one piece
+		miss := rapid.IntRange(0, n-1).Draw(rt, "missing")
+		for i := 0; i < n; i++ {
+			if i != miss {
+				c.prefill = append(c.prefill, i)
+			}
+		}
+	case 1: // everything
+		for i := 0; i < n; i++ {
 			c.prefill = append(c.prefill, i)
+		}
+	default:
+		for i := 0; i < n; i++ {
+			if rapid.IntRange(0, 2).Draw(rt, "prefill") == 0 {
+				c.prefill = append(c.prefill, i)
+			}
 		}
 	}
 	c.idleRate = rapid.SampledFrom([]uint32{0, 0, 64 * 1024}).Draw(rt, "idleRate")
 	c.lowMem = rapid.Bool().Draw(rt, "memAboveLowMark")
 	c.corrupt = rapid.SampledFrom([]int{0, 0, 1, 3}).Draw(rt, "corruptBlocks")
 	c.fast = rapid.Bool().Draw(rt, "fast")
+	c.repeatUnchoke = rapid.IntRange(0, 3).Draw(rt, "repeatUnchoke") == 0
 	c.latency = rapid.SampledFrom([]time.Duration{0, 0, 5 * time.Millisecond, 80 * time.Millisecond, 400 * time.Millisecond}).Draw(rt, "seedLatency")
 	ns := rapid.IntRange(1, 25).Draw(rt, "nsteps")
 	for i := 0; i < ns; i++ {
@@ -199,6 +232,9 @@ func genCase(rt *rapid.T) caseSpec {
 				s.Whence = 0
 			}
 			c.steps = append(c.steps, s)
+		case k == 8 && rapid.Bool().Draw(rt, "sleep?"):
+			// time passes: the scheduler may go quiet (everything asked for is there)
+			c.steps = append(c.steps, step{Kind: "sleep", N: rapid.SampledFrom([]int{1, 3, 10, 60}).Draw(rt, "secs")})
 		default:
 			c.steps = append(c.steps, step{Kind: "evict", Target: rapid.SampledFrom([]int64{0, 0, ps, 3 * ps}).Draw(rt, "target")})
 		}
@@ -245,6 +281,7 @@ func readLoop(rd *tor.Reader, buf []byte, budget time.Duration) (n int, err erro
 
 func runCase(c caseSpec) (fail string, labels map[string]bool) {
 	labels = map[string]bool{}
+	seedRepeatsUnchoke = c.repeatUnchoke
 	config.SetIdleRate(c.idleRate)
 	defer config.SetIdleRate(64 * 1024)
 	if c.lowMem {
@@ -298,6 +335,7 @@ func runCase(c caseSpec) (fail string, labels map[string]bool) {
 	var hist []string
 	lastReadPiece := int64(-1)
 	evictedSince := false
+	quiet := false // time has passed since the last read: the request ticker may have stopped
 	describe := func() string {
 		return fmt.Sprintf("reader on [%d,+%d) of a %d-byte torrent (piece %d KiB, files %d, prefilled %v, idle rate %d, mem above low mark %v, corrupt blocks %d)\nhistory: %v",
 			c.off, c.len, x.Length, x.PieceSize/1024, len(c.g.Files), c.prefill, c.idleRate, c.lowMem, c.corrupt, hist)
@@ -342,6 +380,14 @@ func runCase(c caseSpec) (fail string, labels map[string]bool) {
 			}
 		case "evict":
 			evict(s.Target)
+			if len(tor.VerifRequested(t)) > 0 && quiet {
+				labels["evicted-after-scheduler-went-quiet"] = true
+			}
+			quiet = false
+		case "sleep":
+			time.Sleep(time.Duration(s.N) * time.Second)
+			sim.Settle()
+			quiet = s.N >= 3
 		case "read":
 			buf := make([]byte, s.N)
 			for i := range buf {
@@ -494,8 +540,11 @@ func runCase(c caseSpec) (fail string, labels map[string]bool) {
 		}
 		labels["priorities-withdrawn-at-end"] = true
 	}
+	lastHist = fmt.Sprint(hist)
 	return "", labels
 }
+
+var lastHist string
 
 func TestC02Reader(t *testing.T) {
 	rapid.Check(t, func(rt *rapid.T) {
@@ -573,5 +622,35 @@ func TestReg_c02_reader_in_piece_0_leaks_priorities(t *testing.T) {
 		if leak != "" {
 			t.Fatalf("leak: %s", leak)
 		}
+	}
+}
+
+// A reader still holds its priority on a piece (fetched on its behalf) when the
+// piece is evicted; everything else is complete and the idle prefetcher is off,
+// so nothing but the reader's own re-request can get the scheduler going again.
+func TestC02EvictedWhileHeld(t *testing.T) {
+	for _, prefill := range [][]int{{1, 2, 3}, {0, 2, 3}, {}} {
+		c := caseSpec{g: sim.Geometry{PieceSize: 16384, Length: 16384 * 4, Seed: 7}, off: 0, len: 16384 * 4,
+			prefill: prefill, idleRate: 0, end: "close",
+			steps: []step{{Kind: "read", N: 100}, {Kind: "sleep", N: 10}, {Kind: "evict", Target: 0}, {Kind: "read", N: 100}, {Kind: "sleep", N: 60}, {Kind: "evict", Target: 0},
+				{Kind: "read", N: 16384}, {Kind: "read", N: 100}, {Kind: "sleep", N: 3}, {Kind: "evict", Target: 0}, {Kind: "read", N: 100}}}
+		var fail string
+		var labels map[string]bool
+		leak := sim.Bubble(t, func() { fail, labels = runCase(c) })
+		if fail != "" {
+			t.Fatalf("%s", fail)
+		}
+		if leak != "" {
+			t.Fatalf("leak: %s", leak)
+		}
+		var l []string
+		for k := range labels {
+			l = append(l, k)
+		}
+		sort.Strings(l)
+		if os.Getenv("VERIF_C02_TRACE") != "" {
+			t.Logf("prefill %v: %v\n%s", prefill, l, lastHist)
+		}
+		stats.Case(fmt.Sprintf("held/%v", prefill), true, append(l, "evicted-while-held")...)
 	}
 }
